@@ -297,7 +297,12 @@ func runC14(w *worker) func(c decCase) *Failure {
 		if hasPtrNoCopy {
 			labels = append(labels, "optional-pointer-nocopy")
 		}
-		w.count(len(views) >= 1 && plainNonEmpty >= 1 && (nested || hasPtrNoCopy), c.S.Sig()+string(c.Msg), c, labels...)
+		sample := interface{}(c)
+		if len(c.Msg) > 1<<20 {
+			labels = append(labels, "message>1MiB")
+			sample = map[string]interface{}{"type": c.S.Sig(), "message_bytes": len(c.Msg)}
+		}
+		w.count(len(views) >= 1 && plainNonEmpty >= 1 && (nested || hasPtrNoCopy), c.S.Sig()+hashStr(string(c.Msg)), sample, labels...)
 		return nil
 	}
 }
